@@ -2,9 +2,9 @@
 # usage: tools/eval_seed.sh <ID> [checks...]   -- confirm a delivered mutation in its scratch worktree, then run checks against it in /repo
 set -u
 ID=$1; shift
-WT=/tmp/wt-$ID
+WT=${WT:-/tmp/wt-$ID}
 D=$WT/deliver
-OUT=/verif/seeded/$ID
+OUT=/verif/seeded/${SEED:-$ID}
 mkdir -p $OUT
 cp -r $D/* $OUT/ 2>/dev/null
 export CARGO_TARGET_DIR=$WT/target CARGO_NET_OFFLINE=true
